@@ -8,6 +8,7 @@ from ast_ import *
 from path import if_parts, falls_through, for_parts, while_parts
 
 T = 'T'
+M = 'M'      # a definite function of two or more different input bits (and / or of distinct inputs): never equal to a single input bit
 
 
 class BV:
@@ -26,6 +27,8 @@ def cell_str(c):
         return str(c)
     if c == T:
         return '?'
+    if c == M:
+        return '(a mix of several input bits)'
     if c[0] == 'x':
         return '(%s%s)' % ('1^' if c[2] else '', '^'.join(sorted(cell_str(a) for a in c[1]))[:120])
     nm = c[1] if isinstance(c[1], str) else ('/'.join(map(str, c[1])) if c[1] and c[1][0] == 'mem' else '%s(...)' % (c[1][0],))
@@ -51,7 +54,7 @@ def _to_xs(c):
         return frozenset(), 0
     if c == 1:
         return frozenset(), 1
-    if c == T:
+    if c == T or c == M:
         return None
     if c[0] == 'i':
         return frozenset([c]), 0
@@ -78,9 +81,31 @@ def c_not(a):
         return 0
     if a == T:
         return T
+    if a == M:
+        return M
     if a[0] == 'x':
         return ('x', a[1], 1 - a[2])
     return ('n' if a[0] == 'i' else 'i', a[1], a[2])
+
+
+def _plain(c):
+    """an input bit or its negation, of a named input (not an uninterpreted operation result)"""
+    return isinstance(c, tuple) and c[0] in ('i', 'n') and isinstance(c[1], str)
+
+
+def ripple(a, b, w, sub):
+    """a + b or a - b over cells, bit by bit with the carry / borrow expressed in the cell algebra"""
+    out = []
+    carry = 0
+    for j in range(w):
+        x, y = a[j], b[j]
+        out.append(c_xor(c_xor(x, y), carry))
+        if sub:
+            # borrow' = (~x & y) | (~(x ^ y) & borrow)
+            carry = c_or(c_and(c_not(x), y), c_and(c_not(c_xor(x, y)), carry))
+        else:
+            carry = c_or(c_and(x, y), c_and(c_xor(x, y), carry))
+    return out
 
 
 def c_and(a, b):
@@ -90,13 +115,13 @@ def c_and(a, b):
         return b
     if b == 1:
         return a
-    if a == T or b == T:
+    if a == T or b == T or a == M or b == M:
         return T
     if a == b:
         return a
     if a == c_not(b):
         return 0
-    return T
+    return M if _plain(a) and _plain(b) else T
 
 
 def c_or(a, b):
@@ -106,13 +131,13 @@ def c_or(a, b):
         return b
     if b == 0:
         return a
-    if a == T or b == T:
+    if a == T or b == T or a == M or b == M:
         return T
     if a == b:
         return a
     if a == c_not(b):
         return 1
-    return T
+    return M if _plain(a) and _plain(b) else T
 
 
 def c_xor(a, b):
@@ -124,7 +149,7 @@ def c_xor(a, b):
         return c_not(b)
     if b == 1:
         return c_not(a)
-    if a == T or b == T:
+    if a == T or b == T or a == M or b == M:
         return T
     if a == b:
         return 0
@@ -159,7 +184,7 @@ def u_op(name, a, b, w, commutative=True):
 
 def subst(cell, x, val):
     """cell with input cell x replaced by the constant val."""
-    if cell in (0, 1, T):
+    if cell in (0, 1, T, M):
         return cell
     if cell == x:
         return val
@@ -335,6 +360,9 @@ class Interp:
                         return const_bv(r & ((1 << info[0]) - 1), info[0], info[1])
                     except ZeroDivisionError:
                         return top_bv(info[0], info[1])
+                if op in ('+', '-') and info is not None:
+                    a2, b2 = self.cast(a, t), self.cast(b, t)
+                    return BV(info[0], ripple(a2.b, b2.b, info[0], op == '-'), info[1])
             if op in ('==', '!='):
                 a = self.eval(n['inner'][0], env, depth)
                 b = self.eval(n['inner'][1], env, depth)
@@ -361,6 +389,9 @@ class Interp:
                 if x is not None:
                     w_ = info[0] if info else a.w
                     return const_bv((-x) & ((1 << w_) - 1), w_, info[1] if info else a.signed)
+                r_ = _neg_single_bit(a, info[0] if info else a.w, info[1] if info else a.signed)
+                if r_ is not None:
+                    return r_
             return top_bv(info[0] if info else 64)
         if k == 'ConditionalOperator':
             c = self.truth(self.eval(n['inner'][0], env, depth))
@@ -559,6 +590,16 @@ def expect_lanes(v, spec):
         if got != want:
             bad.append((i, got, want))
     return bad
+
+
+def _neg_single_bit(a, w, signed):
+    """-(b << k) for a value whose only possibly-set bit is cell b at position k: bits k..w-1 all equal b"""
+    nz = [i for i, c in enumerate(a.b[:w]) if c != 0]
+    if len(nz) != 1:
+        return None
+    k = nz[0]
+    cell = a.b[k]
+    return BV(w, [0] * k + [cell] * (w - k), signed)
 
 
 def describe_mismatch(bad, limit=4):
